@@ -30,8 +30,13 @@ enum Ctx {
     CondElseIf,
     CondWhile,
     NotOperand,
+    /// a function whose body holds the site, called as the condition of an if (the function goes on after
+    /// the error like any other call, returns true, and the branch is taken)
+    FunctionInCondition,
+    /// the same inside a for body (two iterations) with the call as the operand of `not`
+    FunctionInConditionInLoop,
 }
-const CTXS: [Ctx; 14] = [
+const CTXS: [Ctx; 16] = [
     Ctx::Top,
     Ctx::Function,
     Ctx::ForBody,
@@ -46,6 +51,8 @@ const CTXS: [Ctx; 14] = [
     Ctx::CondElseIf,
     Ctx::CondWhile,
     Ctx::NotOperand,
+    Ctx::FunctionInCondition,
+    Ctx::FunctionInConditionInLoop,
 ];
 
 #[derive(Clone, Copy, Debug, PartialEq, Eq, Hash)]
@@ -68,6 +75,9 @@ struct Built {
     expect: Vec<(String, usize, usize)>,
     counters: Vec<(String, String)>,
     ctxs: Vec<Ctx>,
+    /// per site: the line of the top-level instruction that wraps the site (a call in condition position),
+    /// which a fatal failure may carry instead of the site's own line
+    wrap_lines: Vec<Option<usize>>,
 }
 
 const REAL_FAILING: &str = "array_pop nohandle";
@@ -117,6 +127,7 @@ fn build(sites: &[Site], exit_mode: u8, mode: RunMode, real_msg: &str, inc_prefi
     let mut expect = vec![];
     // (variable, expected final value; empty = must stay undefined) when the script runs to its end
     let mut counters: Vec<(String, String)> = vec![];
+    let mut wrap_lines: Vec<Option<usize>> = vec![];
     {
         let l = &mut files[0].1;
         l.push("x = set X".into());
@@ -145,6 +156,7 @@ fn build(sites: &[Site], exit_mode: u8, mode: RunMode, real_msg: &str, inc_prefi
         };
         // returns the index (within block) of the site line
         let mut site_idx = 0usize;
+        let mut wrap_idx: Option<usize> = None;
         match s.ctx {
             Ctx::Top | Ctx::ScriptCommand => {
                 pad(&mut block);
@@ -160,6 +172,37 @@ fn build(sites: &[Site], exit_mode: u8, mode: RunMode, real_msg: &str, inc_prefi
                 block.extend(probes(i));
                 block.push("end".into());
                 block.push(format!("fun{}", i));
+            }
+            Ctx::FunctionInCondition => {
+                block.push(format!("fn fun{}", i));
+                pad(&mut block);
+                site_idx = block.len();
+                block.push(line);
+                block.extend(probes(i));
+                block.push("return true".into());
+                block.push("end".into());
+                wrap_idx = Some(block.len());
+                block.push(format!("if fun{}", i));
+                block.push(format!("taken{} = set yes", i));
+                block.push("end".into());
+                counters.push((format!("taken{}", i), "yes".to_string()));
+            }
+            Ctx::FunctionInConditionInLoop => {
+                block.push(format!("fn fun{}", i));
+                pad(&mut block);
+                site_idx = block.len();
+                block.push(line);
+                block.extend(probes(i));
+                block.push("return true".into());
+                block.push("end".into());
+                block.push(format!("arr{} = array one two", i));
+                block.push(format!("for it{} in ${{arr{}}}", i, i));
+                wrap_idx = Some(block.len());
+                block.push(format!("neg{} = not fun{}", i, i));
+                block.push(format!("cnt{} = set \"${{cnt{}}}${{neg{}}}\"", i, i, i));
+                block.push("end".into());
+                block.push(format!("release ${{arr{}}}", i));
+                counters.push((format!("cnt{}", i), "falsefalse".to_string()));
             }
             Ctx::FunctionCalledInLoop => {
                 block.push(format!("fn fun{}", i));
@@ -281,6 +324,7 @@ fn build(sites: &[Site], exit_mode: u8, mode: RunMode, real_msg: &str, inc_prefi
                 let fname = format!("sub/inc{}.ds", i);
                 files.push((fname.clone(), inc));
                 expect.push((msg.clone(), idx + 1, files.len() - 1));
+                wrap_lines.push(None);
                 files[0].1.push(format!("!include_files {}{}", inc_prefix, fname));
                 if exit_mode == 2 && i == 0 {
                     files[0].1.push("exit_on_error true".into());
@@ -290,6 +334,7 @@ fn build(sites: &[Site], exit_mode: u8, mode: RunMode, real_msg: &str, inc_prefi
         }
         let base = files[0].1.len();
         expect.push((msg, base + site_idx + 1, 0));
+        wrap_lines.push(wrap_idx.map(|x| base + x + 1));
         files[0].1.extend(block);
         if exit_mode == 2 && i == 0 {
             files[0].1.push("exit_on_error true".into());
@@ -300,13 +345,13 @@ fn build(sites: &[Site], exit_mode: u8, mode: RunMode, real_msg: &str, inc_prefi
     if mode == RunMode::FileIncluding {
         out.push(("root.ds".into(), "# root\n!include_files ./main.ds\nroot_done = set yes".into()));
     }
-    Built { files: out, expect, counters, ctxs: sites.iter().map(|s| s.ctx).collect() }
+    Built { files: out, expect, counters, ctxs: sites.iter().map(|s| s.ctx).collect(), wrap_lines }
 }
 
 pub fn bounds(tier: Tier) -> Value {
     match tier {
-        Tier::Quick => json!({"sites_per_program": 2, "contexts": 14, "error_kinds": 4, "leading_lines": ["none", "blank", "blank+comment", "set_error+exit_on_error query"], "exit_on_error_schedules": 4, "run_modes": 3}),
-        Tier::Thorough => json!({"sites_per_program": 3, "contexts": 14, "error_kinds": 4, "leading_lines": ["none", "blank", "blank+comment", "set_error+exit_on_error query"], "exit_on_error_schedules": 4, "run_modes": 3}),
+        Tier::Quick => json!({"sites_per_program": 2, "contexts": 16, "error_kinds": 4, "leading_lines": ["none", "blank", "blank+comment", "set_error+exit_on_error query"], "exit_on_error_schedules": 4, "run_modes": 3}),
+        Tier::Thorough => json!({"sites_per_program": 3, "contexts": 16, "error_kinds": 4, "leading_lines": ["none", "blank", "blank+comment", "set_error+exit_on_error query"], "exit_on_error_schedules": 4, "run_modes": 3}),
     }
 }
 
@@ -469,9 +514,13 @@ fn execute(b: &Built, exit_mode: u8, mode: RunMode, scratch: &std::path::Path, s
                     if m != msg {
                         return Err(("fatal-message".into(), format!("failure message {:?}, expected {:?}", m, msg)));
                     }
-                    if meta.line != Some(*line) {
+                    // a site inside a function that runs in condition position: the failure may carry the line of
+                    // the instruction the runner was executing (the wrapping line) instead of the site's own
+                    let wrap = b.wrap_lines.get(k).copied().flatten();
+                    if meta.line != Some(*line) && !(wrap.is_some() && meta.line == wrap) {
                         return Err(("fatal-line".into(), format!("failure line {:?}, expected {}", meta.line, line)));
                     }
+                    let line = &meta.line.unwrap_or(*line);
                     let src = source_of(*fi);
                     if !same_source(&meta.source.clone().unwrap_or_default(), &src) {
                         return Err(("fatal-source".into(), format!("failure source {:?}, expected {:?}", meta.source, src)));
@@ -694,7 +743,7 @@ pub fn crash_sig(_case: &Value, kind: &str) -> String {
     kind.to_string()
 }
 
-pub const RULE: &str = "programs: every sequence of 1..k error sites, each site = context {top level, function body, for body, while body, if branch, else branch, inside a script-implemented library command, included file, a function called from a loop, a loop inside a function, as the condition of if / elseif / while and as the operand of not} x error kind {trigger_error, assert_error with a message containing a space, a real failing command, a message containing the literal text ${x}, a failing script-implemented command} x lines in front of the site {none, a blank line, blank + comment, `set_error` + an `exit_on_error` query (statements that touch the error record and the mode without being errors)}; each site assigns an output variable and is followed by get_last_error / get_last_error_line / get_last_error_source probes; x exit_on_error schedule {never, on from the start, turned on after the first site, on then off before the first site} x run mode {text (included files named by absolute path), file, file that includes the file with the sites}. Oracle (error protocol): output variable 'false'; message, 1-based line and source file of the instruction the runner was executing (the caller's line for the script-implemented command, the included file's own path and line for included code); the latest error wins; the script reaches its last line and the enclosing blocks go on as written (a for body with two elements and a while body run twice, the else branch of an if whose then-branch failed does not run); under exit_on_error the run fails with Runtime(message, line, source) of the first error after it was turned on, and the text the failure is reported with contains that message and line. Scale cases: 300/3000 (thorough 30000) errors raised in a loop and on as many different lines (the latest wins, with its line), and a fatal error that far down after exit_on_error. Message texts: 36 awkward texts (format placeholders, percent signs, brackets, quotes, escapes, blanks at the ends, words that read as false, option look-alikes) x {trigger_error, assert_error} x {top level, inside a function, behind an alias} x {recorded, fatal}: the text comes back unchanged. evaluations = programs run";
+pub const RULE: &str = "programs: every sequence of 1..k error sites, each site = context {top level, function body, for body, while body, if branch, else branch, inside a script-implemented library command, included file, a function called from a loop, a loop inside a function, as the condition of if / elseif / while and as the operand of not, inside a function that is called as the condition of an if or as the operand of not inside a for body} x error kind {trigger_error, assert_error with a message containing a space, a real failing command, a message containing the literal text ${x}, a failing script-implemented command} x lines in front of the site {none, a blank line, blank + comment, `set_error` + an `exit_on_error` query (statements that touch the error record and the mode without being errors)}; each site assigns an output variable and is followed by get_last_error / get_last_error_line / get_last_error_source probes; x exit_on_error schedule {never, on from the start, turned on after the first site, on then off before the first site} x run mode {text (included files named by absolute path), file, file that includes the file with the sites}. Oracle (error protocol): output variable 'false'; message, 1-based line and source file of the instruction the runner was executing (the caller's line for the script-implemented command, the included file's own path and line for included code); the latest error wins; the script reaches its last line and the enclosing blocks go on as written (a for body with two elements and a while body run twice, the else branch of an if whose then-branch failed does not run); under exit_on_error the run fails with Runtime(message, line, source) of the first error after it was turned on, and the text the failure is reported with contains that message and line. Scale cases: 300/3000 (thorough 30000) errors raised in a loop and on as many different lines (the latest wins, with its line), and a fatal error that far down after exit_on_error. Message texts: 36 awkward texts (format placeholders, percent signs, brackets, quotes, escapes, blanks at the ends, words that read as false, option look-alikes) x {trigger_error, assert_error} x {top level, inside a function, behind an alias} x {recorded, fatal}: the text comes back unchanged. evaluations = programs run";
 pub const ASSUMPTIONS: &[&str] = &["the message of the real failing command is taken from running that command alone (differential)", "a failing command in condition position makes the wrapping library command (if / elseif / while / not) report that error on its own line; the script then goes on with the next line, which is the first line of the body (what the body's own end / else lines do afterwards is not looked at: the generated blocks have no else and a while body leaves through goto)"];
 pub const EXHAUSTIVE: bool = true;
 pub const WALL_CAP_S: (u64, u64) = (55, 1500);
